@@ -256,13 +256,17 @@ def model_drop(case, rd, rep, labels_by_path):
                     v = -v
                 return v
 
-            for prio in reversed(case["prios"]):
-                if prio == "top":
-                    subs.reverse()
-                elif prio == "bottom":
-                    pass
-                else:
-                    subs.sort(key=lambda sg: key_for(prio, sg))   # stable; highest priority (dropped first) last
+            # the priorities rank lexicographically, the first one given being the most significant; what is left
+            # undecided stays in report order (= bottom).  Ascending order, highest priority (dropped first) last.
+            # `top` and `bottom` are keys like the others: the position in the report, descending or ascending
+            pos = {id(sg): k_ for k_, sg in enumerate(subs)}
+
+            def rank(sg):
+                ks = []
+                for prio in case["prios"]:
+                    ks.append(-pos[id(sg)] if prio == "top" else pos[id(sg)] if prio == "bottom" else key_for(prio, sg))
+                return tuple(ks) + (pos[id(sg)],)
+            subs.sort(key=rank)
             retain = [sg for sg in subs if any(keep(p) for p in sg) or not all(droppable(p) for p in sg)]
             todrop = [sg for sg in subs if sg not in retain]
             missing = min(len(todrop), max(0, n - len(retain)))
